@@ -284,7 +284,7 @@ class Scenario:
 
 class Execution:
     __slots__ = ('points', 'choices', 'labels', 'alts', 'result', 'final', 'events', 'errors', 'steps', 'vtime', 'fps',
-                 'stage_states', 'stop_executing', 'comp_done', 'extra')
+                 'stage_states', 'stop_executing', 'comp_done', 'extra', 'preempt')
 
 
 def reset_class_state():
@@ -338,6 +338,9 @@ def fingerprint(controller):
     return hashlib.sha1(s.encode()).hexdigest()[:16]
 
 
+STALL = 0.05
+
+
 def alternatives(rt):
     """Canonical order: enabled activities by (due, fifo) — enabled task exits (oldest first) — let time pass."""
     alts = [('t', t) for t in rt.enabled()]
@@ -351,6 +354,11 @@ def alternatives(rt):
             cand.append(task.launched_at + task._duration)
     if cand:
         alts.append(('tick', min(cand)))
+    lr = rt.last_run
+    if rt.trace_fn is not None and lr is not None and lr.state == 'blocked' and lr.block[0] == 'preempt':
+        # the activity that just reached a line-level preemption point is descheduled for STALL virtual seconds: one
+        # deviation that lets every chain of hand-offs among the other activities complete first
+        alts.append(('stall', lr))
     return alts
 
 
@@ -360,10 +368,13 @@ def alt_label(a):
         return obj.label
     if kind == 'exit':
         return 'exit:%s#%d' % (obj.job.reference, obj.index)
+    if kind == 'stall':
+        return 'stall:%s' % obj.label
     return 'tick'
 
 
-def execute(scn, choices, horizon=900.0, step_cap=30000, want_fps=True, main=None, setup=None, extra_alts=None, probe=None):
+def execute(scn, choices, horizon=900.0, step_cap=30000, want_fps=True, main=None, setup=None, extra_alts=None, probe=None,
+            trace=None):
     """One complete execution. `choices` = prefix of choice indices, afterwards choice 0 (canonical) everywhere.
 
     main(exp, controller, result) may replace the default stage loop; setup(exp, controller) runs before it in the
@@ -373,6 +384,22 @@ def execute(scn, choices, horizon=900.0, step_cap=30000, want_fps=True, main=Non
     rt = vrt.Runtime()
     vrt.set_runtime(rt)
     reset_class_state()
+    if trace:
+        # line-level preemption points: every source line of the listed functions is a scheduling point
+        wanted = set(tuple(t) for t in trace)
+
+        def local(frame, event, arg):
+            if event == 'line' and not rt.poison:
+                rt.yield_blocked(('preempt', '%s:%d' % (frame.f_code.co_name, frame.f_lineno)))
+            return local
+
+        def glob(frame, event, arg):
+            code = frame.f_code
+            if (os.path.basename(code.co_filename), code.co_name) in wanted:
+                return local
+            return None
+
+        rt.trace_fn = glob
     H.script = {k: [list(x) for x in v] for k, v in scn.script.items()}
     H.outmode = dict(scn.outmode)
     H.exit_files = dict(scn.exit_files)
@@ -380,6 +407,7 @@ def execute(scn, choices, horizon=900.0, step_cap=30000, want_fps=True, main=Non
     location = tempfile.mkdtemp(prefix='e1-', dir=base)
     x = Execution()
     x.points, x.choices, x.labels, x.alts, x.fps, x.extra = [], [], [], [], set(), {}
+    x.preempt = []   # per choice point: the running activity sits at a line-level preemption point
     result = {}
     try:
         exp, controller = build_controller(scn, location)
@@ -436,6 +464,7 @@ def execute(scn, choices, horizon=900.0, step_cap=30000, want_fps=True, main=Non
             x.points.append(len(alts))
             x.alts.append([alt_label(a) if a[0] != 'env' else 'env:' + a[1][0] for a in alts])
             x.choices.append(c)
+            x.preempt.append(bool(alts) and alts[-1][0] == 'stall')
             x.labels.append(alt_label((kind, obj)) if kind != 'env' else 'env:' + obj[0])
             if want_fps:
                 x.fps.add(fingerprint(controller))
@@ -447,6 +476,9 @@ def execute(scn, choices, horizon=900.0, step_cap=30000, want_fps=True, main=Non
                 rt.advance_to(obj)
             elif kind == 'exit':
                 obj.finish()
+            elif kind == 'stall':
+                obj.block = ('sleep',)
+                obj.block_due = rt.now + STALL
             else:
                 obj[1]()
             i += 1
